@@ -1,6 +1,6 @@
 (* C13: the separator test regenerated from /repo's current source (coq/gen/Gen_fileserver.v) is the test the
    model uses in is_file_prefix and strip_trailing_sep (c =? slash); the parameter is a (signed) char *)
-From CppcmsV Require Import Base.Tac Base.CSem Base.Sweep C13.Defs gen.Gen_fileserver.
+From CppcmsV Require Import Base.Tac Base.CSem Base.Sweep C13.Defs gen.Gen_fileserver gen.Gen_C13_mode.
 Local Open Scope N_scope.
 
 Lemma link_is_directory_separator b : b < 256 -> g_is_directory_separator (wraps 8 (Z.of_N b)) = (b =? slash).
@@ -8,3 +8,10 @@ Proof.
   intros H. apply eqb_prop.
   apply (sweep256 (fun b => eqb (g_is_directory_separator (wraps 8 (Z.of_N b))) (b =? slash))); [vm_compute; reflexivity|exact H].
 Qed.
+
+(* the st_mode bits of the platform header (harness/C13_mode_tu.cpp -> coq/gen/Gen_C13_mode.v) are the numbers of the model *)
+Lemma link_mode_bits :
+  g_c13_S_IFMT = Z.of_N S_IFMT /\ g_c13_S_IFDIR = Z.of_N S_IFDIR /\ g_c13_S_IFREG = Z.of_N S_IFREG /\
+  g_c13_S_IFIFO = Z.of_N S_IFIFO /\ g_c13_S_IFCHR = Z.of_N S_IFCHR /\ g_c13_S_IFBLK = Z.of_N S_IFBLK /\
+  g_c13_S_IFLNK = Z.of_N S_IFLNK /\ g_c13_S_IFSOCK = Z.of_N S_IFSOCK.
+Proof. repeat split; reflexivity. Qed.
